@@ -435,10 +435,19 @@ def _run(prop, tier, seed, replay, workdir, log, t0):
 
     unrepresentable = {}
 
+    class ObserveFailed:
+        def __init__(self, ex):
+            self.ex = ex
+
     def observe_all(cs):
         obs = []
         for c in cs:
-            obs.append(prop.observe(c))
+            try:
+                obs.append(prop.observe(c))
+            except Exception as ex:
+                # the library raised (or returned something unusable) at a point where the harness only reads what it did:
+                # such an observation is outside the model's domain just like an unrepresentable value
+                obs.append(ObserveFailed(ex))
         return obs
 
     def evaluate(cs):
@@ -448,6 +457,10 @@ def _run(prop, tier, seed, replay, workdir, log, t0):
         terms, idx = [], []
         codes = [None] * len(cs)
         for k, (c, o) in enumerate(zip(cs, obs)):
+            if isinstance(o, ObserveFailed):
+                codes[k] = 7
+                unrepresentable[id(c)] = 'the implementation could not be observed: %s: %s' % (type(o.ex).__name__, o.ex)
+                continue
             try:
                 terms.append(prop.encode(c, o))
                 idx.append(k)
@@ -520,8 +533,8 @@ def _run(prop, tier, seed, replay, workdir, log, t0):
         case0 = cases[i0]
 
         def still_bad(c):
-            o = prop.observe(c)
             try:
+                o = prop.observe(c)
                 t = prop.encode(c, o)
             except Exception:
                 return id(case0) in unrepresentable
@@ -531,8 +544,9 @@ def _run(prop, tier, seed, replay, workdir, log, t0):
                              extra_imports=getattr(prop, 'EXTRA_IMPORTS', ''))
             return bool(cs[0] & 2) and (cs[0] >> 3) == (codes[i0] >> 3)
         small = _shrink(prop, case0, still_bad)
-        o_small = prop.observe(small)
+        o_small = None
         try:
+            o_small = prop.observe(small)
             model_txt = eval_show(corr_module, prop.CASE_TYPE, prop.encode(small, o_small), workdir,
                                   extra_imports=getattr(prop, 'EXTRA_IMPORTS', ''))
             what = 'the Coq predicate ok (the property, as stated in Corr/%s.v) is false on what the implementation did' % pid
